@@ -388,7 +388,8 @@ def rule_c(repo, chk):
                             any(at_most_last(d, x) for x in v.args if not (isinstance(x, ast.Name) and x.id == sv_)):
                         written_ok = pat.guarded_by(g, d, pat.test_edge(lambda tt, pol: pat.fact_matches(pat.compare_fact(tt, pol), sv_, ('>=',), av_))) is None
                         follows = follows and written_ok
-                    elif isinstance(v, (ast.BinOp, ast.Name)) and at_most_last(d, v) and not any(isinstance(w_, ast.Call) for w_ in ast.walk(v)):
+                    elif isinstance(v, (ast.BinOp, ast.Name)) and at_most_last(d, v) and not any(isinstance(w_, ast.Call) for w_ in ast.walk(v)) and \
+                            (not isinstance(v, ast.Name) or all(x is not None and isinstance(x[1], ast.BinOp) for x in values_at(d, v))):
                         # exactly length - 1 (through a local): at_most_last of a non-min expression means the value is `length - 1`
                         pass
                     else:
